@@ -19,25 +19,44 @@ Record X (c : cfg) (s : st) : Prop := {
 Definition R2 (A : nat -> Prop) (s : st) : Prop :=
   forall y, fc_row (stat s y) = true -> In y (failed s) \/ In y (cancelled s) \/ A y.
 
+(** events a poll emits after its query: only script generation and submissions *)
+Definition quiet_ev (e : event) : Prop := match e with EGen _ | ESubmit _ _ _ _ => True | _ => False end.
+Definition ext (s s' : st) : Prop := exists l, evs s' = l ++ evs s /\ Forall quiet_ev l.
+
 Record SR (s s' : st) : Prop := {
   sr_comp : forall y, In y (completed s) -> In y (completed s');
   sr_fc : forall y, In y (failed s) \/ In y (cancelled s) -> In y (failed s') \/ In y (cancelled s');
   sr_row : forall y, In y (failed s) \/ In y (cancelled s) -> fc_row (stat s y) = true -> fc_row (stat s' y) = true;
   sr_ni : forall y, stat s y <> INITIALIZED -> stat s' y <> INITIALIZED;
-  sr_evs : exists l, evs s' = l ++ evs s }.
+  sr_deps : forall x, incl (getdeps s' x) (getdeps s x);
+  sr_evs : ext s s' }.
+
+Lemma ext_refl s : ext s s.
+Proof. exists []. split; [reflexivity|constructor]. Qed.
+Lemma ext_trans a b d : ext a b -> ext b d -> ext a d.
+Proof.
+  intros [l1 [A5 A6]] [l2 [B5 B6]]. exists (l2 ++ l1). split; [rewrite B5, A5, app_assoc; reflexivity|].
+  apply Forall_app. auto.
+Qed.
+Lemma ext_same s s' : evs s' = evs s -> ext s s'.
+Proof. intros E. exists []. split; [exact E|constructor]. Qed.
 
 Lemma SR_refl s : SR s s.
-Proof. constructor; auto. exists []. reflexivity. Qed.
+Proof. constructor; auto. - intros x. apply incl_refl. - apply ext_refl. Qed.
 Lemma SR_trans a b d : SR a b -> SR b d -> SR a d.
 Proof.
-  intros [A1 A2 A3 A4 [l1 A5]] [B1 B2 B3 B4 [l2 B5]]. constructor; auto.
-  exists (l2 ++ l1). rewrite B5, A5, app_assoc. reflexivity.
+  intros [A1 A2 A3 A4 A5 A6] [B1 B2 B3 B4 B5 B6]. constructor; auto.
+  - intros x. eapply incl_tran; eauto.
+  - eapply ext_trans; eauto.
 Qed.
 
 (** a step that leaves the rows and the resolved sets alone *)
 Lemma SR_quiet s s' : (forall y, stat s' y = stat s y) -> completed s' = completed s -> failed s' = failed s ->
-  cancelled s' = cancelled s -> (exists l, evs s' = l ++ evs s) -> SR s s'.
-Proof. intros E1 E2 E3 E4 E5. constructor; auto; intros y; rewrite ?E1, ?E2, ?E3, ?E4; auto. Qed.
+  cancelled s' = cancelled s -> deps s' = deps s -> ext s s' -> SR s s'.
+Proof.
+  intros E1 E2 E3 E4 E6 E5. constructor; auto; intros y; unfold getdeps; rewrite ?E1, ?E2, ?E3, ?E4, ?E6; auto.
+  apply incl_refl.
+Qed.
 Lemma X_quiet c s s' : (forall y, stat s' y = stat s y) -> completed s' = completed s -> X c s -> X c s'.
 Proof. intros E1 E2 [A B]. constructor; intros y; rewrite ?E1, ?E2; auto. Qed.
 Lemma R2_quiet A s s' : (forall y, stat s' y = stat s y) -> failed s' = failed s -> cancelled s' = cancelled s ->
@@ -178,22 +197,22 @@ Lemma submit_attempts_stat g x restart n : forall s,
    stat (snd (submit_attempts g x restart n s)) x = RUNNING) /\
   nrecs (snd (submit_attempts g x restart n s)) = nrecs s /\
   same_sets s (snd (submit_attempts g x restart n s)) /\
-  (exists l, evs (snd (submit_attempts g x restart n s)) = l ++ evs s).
+  ext s (snd (submit_attempts g x restart n s)).
 Proof.
-  induction n as [|n IH]; intros s; [repeat split; auto; exists []; reflexivity|].
+  induction n as [|n IH]; intros s; [repeat split; auto; apply ext_refl|].
   rewrite submit_attempts_S. cbv zeta.
   set (s2 := if scheduled (attr g x)
              then if restart then emit (EGen x) s else rec_set_status x PENDING s
              else rec_set_status x RUNNING (if restart then emit (EGen x) s else rec_set_status x PENDING s)).
   assert (S2 : (forall y, y <> x -> stat s2 y = stat s y) /\
                (stat s2 x = stat s x \/ stat s2 x = PENDING \/ stat s2 x = RUNNING) /\ nrecs s2 = nrecs s /\
-               same_sets s s2 /\ (exists l, evs s2 = l ++ evs s)).
+               same_sets s s2 /\ ext s s2).
   { unfold s2. destruct (scheduled (attr g x)), restart; autorewrite with vwdb;
       (split; [intros y Hy; autorewrite with vwdb; apply Nat.eqb_neq in Hy; rewrite ?Hy; reflexivity|]);
       (split; [rewrite ?Nat.eqb_refl; cbn [andb]; destruct (x <? nrecs s); auto|]);
       (split; [reflexivity|]); (split; [repeat split|]);
-      first [exists []; reflexivity | exists [EGen x]; reflexivity]. }
-  clearbody s2. destruct S2 as (B1 & B2 & B3 & B4 & [l2 B5]).
+      first [(exists []; split; [reflexivity|constructor]) | (exists [EGen x]; split; [reflexivity|repeat constructor])]. }
+  clearbody s2. destruct S2 as (B1 & B2 & B3 & B4 & B5).
   pose proof (next_sub_stat s2) as NS. pose proof (next_sub_frame s2) as NF.
   destruct (next_sub s2) as [b s3]. cbn [snd] in NS. destruct NF as (F1 & F2 & F3 & F4).
   destruct b.
@@ -203,15 +222,37 @@ Proof.
     + autorewrite with vwdb. change (nrecs (set_next_job s3 (S (next_job s3)))) with (nrecs s3).
       rewrite (proj2 (NS x)). exact B3.
     + eapply same_sets_trans; [exact B4|]. eapply same_sets_trans; [exact F1|]. repeat split.
-    + eexists (_ :: l2). cbn [evs emit set_evs rec_push_job set_recs set_next_job]. rewrite F3, B5. reflexivity.
-  - destruct (IH (emit (ESubmit x (if restart then Restart else Main) (scheduled (attr g x)) None) s3)) as (C1 & C2 & C3 & C4 & [l4 C5]).
+    + eapply ext_trans; [exact B5|]. eexists [_]. split.
+      { cbn [evs emit set_evs rec_push_job set_recs set_next_job app]. rewrite F3. reflexivity. }
+      repeat constructor.
+  - destruct (IH (emit (ESubmit x (if restart then Restart else Main) (scheduled (attr g x)) None) s3)) as (C1 & C2 & C3 & C4 & C5).
     split; [|split; [|split; [|split]]].
     + intros y Hy. rewrite C1 by auto. autorewrite with vwdb. rewrite (proj1 (NS y)). auto.
     + autorewrite with vwdb in C2. rewrite (proj1 (NS x)) in C2.
       destruct C2 as [C2|[C2|C2]]; rewrite C2; auto.
     + rewrite C3. autorewrite with vwdb. rewrite (proj2 (NS x)). exact B3.
     + eapply same_sets_trans; [exact B4|]. eapply same_sets_trans; [exact F1|]. exact C4.
-    + eexists (l4 ++ _ :: l2). rewrite C5. cbn [evs emit set_evs]. rewrite F3, B5, <- app_assoc. reflexivity.
+    + eapply ext_trans; [exact B5|]. eapply ext_trans; [|exact C5]. eexists [_]. split.
+      { cbn [evs emit set_evs app]. rewrite F3. reflexivity. }
+      repeat constructor.
+Qed.
+
+Lemma submit_attempts_ni g x n s : (x <? nrecs s) = true ->
+  fst (submit_attempts g x false n s) = true -> stat (snd (submit_attempts g x false n s)) x <> INITIALIZED.
+Proof.
+  intros Hl. destruct n as [|n]; [discriminate|]. rewrite submit_attempts_S. cbv zeta.
+  set (s2 := if scheduled (attr g x) then rec_set_status x PENDING s
+             else rec_set_status x RUNNING (rec_set_status x PENDING s)).
+  assert (S2 : stat s2 x = PENDING \/ stat s2 x = RUNNING).
+  { unfold s2. destruct (scheduled (attr g x)); autorewrite with vwdb; rewrite Nat.eqb_refl, Hl; cbn [andb]; auto. }
+  clearbody s2. pose proof (next_sub_stat s2 x) as [NS _]. destruct (next_sub s2) as [b s3]. cbn [snd] in NS.
+  destruct b.
+  - cbn [fst snd]. intros _. autorewrite with vwdb. rewrite NS. destruct S2 as [S2|S2]; rewrite S2; discriminate.
+  - intros _.
+    destruct (submit_attempts_stat g x false n (emit (ESubmit x Main (scheduled (attr g x)) None) s3))
+      as (_ & C2 & _).
+    autorewrite with vwdb in C2. rewrite NS in C2.
+    destruct C2 as [C2|[C2|C2]]; rewrite C2; try discriminate. destruct S2 as [S2|S2]; rewrite S2; discriminate.
 Qed.
 
 Ltac yx y x := destruct (Nat.eq_dec y x) as [->|?Hn];
@@ -229,15 +270,16 @@ Lemma execute_record_x A x restart s :
   Inv g s -> x < length g -> ~ In x (completed s) -> ~ In x (failed s) -> ~ In x (cancelled s) ->
   X c s -> R2 A s ->
   let s' := execute_record_gen c g x restart s in
-  X c s' /\ R2 A s' /\ SR s s' /\ (restart = false -> stat s' x <> INITIALIZED).
+  X c s' /\ R2 A s' /\ SR s s' /\ (restart = false -> stat s' x <> INITIALIZED) /\ ready s' = ready s.
 Proof.
   intros I Hx Hc Hf Hk Xs Rs.
   assert (Hl := nrecs_lt g s x I Hx).
   unfold execute_record_gen.
   set (s0 := if negb restart then emit (EGen x) s else s).
-  assert (V0 : (forall y, stat s0 y = stat s y) /\ same_sets s s0 /\ (exists l, evs s0 = l ++ evs s) /\ nrecs s0 = nrecs s).
+  assert (V0 : (forall y, stat s0 y = stat s y) /\ same_sets s s0 /\ ext s s0 /\ nrecs s0 = nrecs s).
   { unfold s0. destruct restart; cbn [negb];
-      (split; [reflexivity|split; [repeat split|split; [|reflexivity]]]); [exists []|exists [EGen x]]; reflexivity. }
+      (split; [reflexivity|split; [repeat split|split; [|reflexivity]]]);
+      [apply ext_refl|exists [EGen x]; split; [reflexivity|repeat constructor]]. }
   destruct V0 as (V1 & V2 & V3 & V4). pose proof V2 as (E1 & E2 & E3 & E4 & E5 & E6 & E7).
   clearbody s0.
   assert (X0 : X c s0) by (apply (X_quiet c s); auto).
@@ -246,20 +288,25 @@ Proof.
   rewrite <- V4 in Hl. rewrite <- E1 in Hc. rewrite <- E4 in Hf. rewrite <- E5 in Hk.
   cbv zeta.
   match goal with |- X c ?t /\ _ => set (s' := t) end.
-  enough (G : X c s' /\ R2 A s' /\ SR s0 s' /\ (restart = false -> stat s' x <> INITIALIZED)).
-  { destruct G as (G1 & G2 & G3 & G4). repeat (split; [assumption|]). split; [eapply SR_trans; eauto|exact G4]. }
+  enough (G : X c s' /\ R2 A s' /\ SR s0 s' /\ (restart = false -> stat s' x <> INITIALIZED) /\ ready s' = ready s0).
+  { destruct G as (G1 & G2 & G3 & G4 & G5). repeat (split; [assumption|]).
+    split; [eapply SR_trans; eauto|]. split; [exact G4|congruence]. }
   destruct X0 as [XA XB]. unfold R2 in *. subst s'.
   destruct (dry c) eqn:Hd.
   - (* dry run *)
     unfold fin_of in *. rewrite Hd in *.
-    split; [|split; [|split]].
+    split; [|split; [|split; [|split]]].
     + constructor; intros y; vw Hl; yx y x; fin Hd.
     + intros y; vw Hl; yx y x; fin Hd.
-    + constructor; try (intros y; vw Hl; yx y x; fin Hd). exists []. reflexivity.
+    + constructor; try (intros y; vw Hl; yx y x; fin Hd); [intros z; apply incl_refl|apply ext_same; reflexivity].
     + intros _. vw Hl. rewrite Nat.eqb_refl. discriminate.
+    + reflexivity.
   - unfold fin_of in XB. rewrite Hd in XB.
     pose proof (submit_attempts_stat g x restart (attempts c) s0) as (S1 & S2 & S3 & S4 & S5).
-    destruct (submit_attempts g x restart (attempts c) s0) as [ok s1]. cbn [snd] in *.
+    assert (NI : restart = false -> fst (submit_attempts g x restart (attempts c) s0) = true ->
+                 stat (snd (submit_attempts g x restart (attempts c) s0)) x <> INITIALIZED).
+    { intros ->. apply submit_attempts_ni. exact Hl. }
+    destruct (submit_attempts g x restart (attempts c) s0) as [ok s1]. cbn [fst snd] in *.
     destruct S4 as (F1 & F2 & F3 & F4 & F5 & F6 & F7).
     assert (Hl1 : (x <? nrecs s1) = true) by (rewrite S3; exact Hl).
     assert (ST : forall y, (y = x /\ (stat s1 y = stat s0 y \/ stat s1 y = PENDING \/ stat s1 y = RUNNING)) \/
@@ -269,15 +316,210 @@ Proof.
     destruct ok.
     + destruct (scheduled (attr g x)); cbn [negb].
       * (* scheduled: in progress *)
-        split; [|split; [|split]].
+        split; [|split; [|split; [|split]]].
         -- constructor; intros y; vw Hl1; rewrite ?F1; destruct (ST y) as [[-> [S|[S|S]]]|[Hn S]]; rewrite ?S; fin Hd.
         -- intros y; vw Hl1; rewrite ?F4, ?F5; destruct (ST y) as [[-> [S|[S|S]]]|[Hn S]]; rewrite ?S; fin Hd.
         -- constructor; try (intros y; vw Hl1; rewrite ?F1, ?F4, ?F5;
                               destruct (ST y) as [[-> [S|[S|S]]]|[Hn S]]; rewrite ?S; fin Hd).
-           exact S5.
-        -- admit.
-      * admit.
-    + admit.
-Admitted.
+           ++ intros z. unfold getdeps. cbn [deps inprog_add set_inprog]. rewrite F6. apply incl_refl.
+           ++ exact S5.
+        -- intros Hr. vw Hl1. apply NI; auto.
+        -- exact F3.
+      * (* local: completed at once *)
+        split; [|split; [|split; [|split]]].
+        -- constructor; intros y; vw Hl1; rewrite ?F1; destruct (ST y) as [[-> [S|[S|S]]]|[Hn S]];
+             rewrite ?Nat.eqb_refl, ?(proj2 (Nat.eqb_neq _ _) Hn), ?S; fin Hd.
+        -- intros y; vw Hl1; rewrite ?F4, ?F5; destruct (ST y) as [[-> [S|[S|S]]]|[Hn S]];
+             rewrite ?Nat.eqb_refl, ?(proj2 (Nat.eqb_neq _ _) Hn), ?S; fin Hd.
+        -- constructor; try (intros y; vw Hl1; rewrite ?F1, ?F4, ?F5;
+                              destruct (ST y) as [[-> [S|[S|S]]]|[Hn S]];
+                              rewrite ?Nat.eqb_refl, ?(proj2 (Nat.eqb_neq _ _) Hn), ?S; fin Hd).
+           ++ intros z. unfold getdeps. setcbn. rewrite F6. apply incl_refl.
+           ++ exact S5.
+        -- intros _. vw Hl1. rewrite Nat.eqb_refl. discriminate.
+        -- exact F3.
+    + (* every attempt failed: sweep of the sub-tree *)
+      set (l := bfs_subtree g x).
+      destruct (mfl_view l (inprog_remove x s1)) as (M1 & M2 & M3 & M4 & M5).
+      destruct (mark_failed_list_frame l (inprog_remove x s1)) as (G1 & G2 & G3 & G4 & G5 & G6 & G7 & G8).
+      pose proof (mark_failed_list_cancelled l (inprog_remove x s1)) as G9.
+      set (s' := mark_failed_list l (inprog_remove x s1)) in *.
+      assert (Hroot : In x l) by apply bfs_subtree_root.
+      assert (Hout : forall y, In y l -> ~ In y (completed s0)).
+      { intros y Hy. destruct (Nat.eq_dec y x) as [->|Hn]; [exact Hc|].
+        rewrite E1. rewrite E1 in Hc. destruct (subtree_out g s x y W I Hx Hc Hy Hn) as (_ & O & _). exact O. }
+      change (completed (inprog_remove x s1)) with (completed s1) in G1.
+      change (cancelled (inprog_remove x s1)) with (cancelled s1) in G9.
+      change (failed (inprog_remove x s1)) with (failed s1) in M1.
+      assert (ST' : forall y, (In y l /\ (stat s' y = FAILED \/ stat s' y = stat s1 y)) \/ (~ In y l /\ stat s' y = stat s1 y)).
+      { intros y. destruct (in_dec Nat.eq_dec y l) as [Hi|Hi]; [left|right]; split; auto.
+        - apply (M3 y Hi).
+        - apply (M2 y Hi). }
+      split; [|split; [|split; [|split]]].
+      * constructor; intros y; rewrite G1, F1.
+        -- destruct (ST' y) as [[Hi [S'|S']]|[Hi S']]; rewrite S'; try (intros [?|?]; discriminate);
+           destruct (ST y) as [[-> [S|[S|S]]]|[Hn S]]; rewrite ?S; fin Hd.
+        -- intros Hy. destruct (ST' y) as [[Hi _]|[Hi S']]; [exfalso; exact (Hout y Hi Hy)|].
+           rewrite S'. destruct (ST y) as [[-> _]|[Hn S]]; [contradiction|]. rewrite S. unfold fin_of. rewrite Hd. auto.
+      * intros y. rewrite M1, G9, F4, F5.
+        destruct (ST' y) as [[Hi _]|[Hi S']]; [auto|]. rewrite S'.
+        destruct (ST y) as [[-> _]|[Hn S]]; [contradiction|]. rewrite S. intros H. destruct (R0 y H) as [?|[?|?]]; auto.
+      * constructor.
+        -- intros y. rewrite G1, F1. auto.
+        -- intros y. rewrite M1, G9, F4, F5. tauto.
+        -- intros y Hy. destruct (ST' y) as [[Hi [S'|S']]|[Hi S']]; rewrite S'; auto;
+           destruct (ST y) as [[-> _]|[Hn S]]; try tauto; rewrite S; auto.
+        -- intros y Hy. destruct (ST' y) as [[Hi [S'|S']]|[Hi S']]; rewrite S'; try discriminate;
+           destruct (ST y) as [[-> [S|[S|S]]]|[Hn S]]; rewrite S; auto; discriminate.
+        -- intros z. unfold getdeps. rewrite G4. cbn [deps inprog_remove set_inprog]. rewrite F6. apply incl_refl.
+        -- eapply ext_trans; [exact S5|]. apply ext_same. exact G6.
+      * intros _. rewrite (M4 x Hroot); [discriminate|]. apply Nat.ltb_lt. exact Hl1.
+      * rewrite G3. exact F3.
+Qed.
+
+Definition acc (cl ca : list nat) (y : nat) : Prop := In y cl \/ In y ca.
+
+Ltac rcase Hl Hd x Rs' :=
+  split; [constructor; intros y; vw Hl; yx y x; cbn [fc_row]; fin Hd
+         |split; [intros y; unfold acc in *; vw Hl; rewrite ?In_srem, ?In_set_union; yx y x; cbn [fc_row];
+                  intros Hfc; try (apply Rs' in Hfc); fin Hd
+                 |constructor; try (intros y; vw Hl; yx y x; cbn [fc_row]; fin Hd); [intros z; apply incl_refl|apply ext_same; reflexivity]]].
+
+Lemma handle_report_x p L0 r rest s cl ca :
+  dry c = false -> disp_inv c g p L0 (r :: rest) s cl ca -> X c s -> R2 (acc cl ca) s ->
+  let '(s', cl', ca') := handle_report_gen c g (s, cl, ca) r in
+  X c s' /\ R2 (acc cl' ca') s' /\ SR s s'.
+Proof.
+  intros Hd D Xs Rs. destruct r as [x o].
+  pose proof D as (I & T & Cl & _ & ND & RI & AC).
+  assert (Hx : In x (inprog s)) by (apply RI; left; reflexivity).
+  assert (Hxl : x < length g) by (apply (i_bound g s I); auto).
+  assert (Hxc : ~ In x (completed s)) by (intros Hc; exact (i_dj_ci g s I x Hc Hx)).
+  assert (Hxf : ~ In x (failed s) /\ ~ In x (cancelled s)).
+  { split; intros Hf; destruct (i_dj_fc g s I x); auto; tauto. }
+  destruct Hxf as [Hxf Hxk].
+  assert (Hl := nrecs_lt g s x I Hxl).
+  assert (Hroot : In x (bfs_subtree g x)) by apply bfs_subtree_root.
+  pose proof Xs as [XA XB]. unfold fin_of in XB. rewrite Hd in XB. pose proof Rs as Rs'. unfold R2 in Rs'.
+  unfold handle_report_gen; destruct o as [v|]; [destruct v|]; cbn [oeqb state_eqb].
+  all: try (solve [split; [exact Xs|split; [exact Rs|apply SR_refl]]]).
+  - (* RUNNING *) unfold R2. rcase Hl Hd x Rs'.
+  - (* FINISHED *) unfold R2. rcase Hl Hd x Rs'.
+  - (* FAILED *) unfold R2. rcase Hl Hd x Rs'.
+  - (* HWFAILURE *) unfold R2. rcase Hl Hd x Rs'.
+  - (* TIMEDOUT *)
+    destruct (has_restart (attr g x) && negb (canceled s)) eqn:Hr.
+    + unfold mark_restart_gen.
+      destruct ((rlimit (attr g x) =? 0) || (restarts (getrec (rec_set_status x TIMEDOUT s) x) <? rlimit (attr g x))).
+      * set (s1 := rec_inc_restarts x (rec_set_status x TIMEDOUT s)).
+        assert (I1 : Inv g s1).
+        { apply Inv_inc_restarts. apply Inv_set_status; [discriminate|exact I]. }
+        assert (X1 : X c s1 /\ R2 (acc cl ca) s1 /\ SR s s1) by (unfold s1, R2; rcase Hl Hd x Rs').
+        destruct X1 as (X1 & R1 & SR1).
+        pose proof (execute_record_x (acc cl ca) x true s1 I1 Hxl Hxc Hxf Hxk X1 R1) as ER.
+        cbv zeta in ER. destruct ER as (E1 & E2 & E3 & _ & _).
+        split; [exact E1|split; [exact E2|eapply SR_trans; eauto]].
+      * unfold R2. rcase Hl Hd x Rs'.
+    + unfold R2. rcase Hl Hd x Rs'.
+  - (* UNKNOWN *) unfold R2. rcase Hl Hd x Rs'.
+  - (* CANCELLED *) unfold R2. rcase Hl Hd x Rs'.
+Qed.
+
+(** the two sweep loops *)
+Lemma sweep_failed_x (A : nat -> Prop) l s :
+  (forall y, In y l -> ~ In y (completed s)) -> X c s -> R2 (fun y => In y l \/ A y) s ->
+  X c (mark_failed_list l s) /\ R2 A (mark_failed_list l s) /\ SR s (mark_failed_list l s).
+Proof.
+  intros Hout [XA XB] Rs.
+  destruct (mfl_view l s) as (M1 & M2 & M3 & M4 & M5).
+  destruct (mark_failed_list_frame l s) as (G1 & G2 & G3 & G4 & G5 & G6 & G7 & G8).
+  pose proof (mark_failed_list_cancelled l s) as G9.
+  set (s' := mark_failed_list l s) in *.
+  assert (ST' : forall y, (In y l /\ (stat s' y = FAILED \/ stat s' y = stat s y)) \/ (~ In y l /\ stat s' y = stat s y)).
+  { intros y. destruct (in_dec Nat.eq_dec y l) as [Hi|Hi]; [left|right]; split; auto. }
+  split; [|split].
+  - constructor; intros y; rewrite G1.
+    + destruct (ST' y) as [[Hi [S'|S']]|[Hi S']]; rewrite S'; auto. intros [?|?]; discriminate.
+    + intros Hy. destruct (ST' y) as [[Hi _]|[Hi S']]; [exfalso; exact (Hout y Hi Hy)|]. rewrite S'. auto.
+  - intros y. rewrite M1, G9. destruct (ST' y) as [[Hi _]|[Hi S']]; [auto|]. rewrite S'.
+    intros H. destruct (Rs y H) as [?|[?|[?|?]]]; auto. contradiction.
+  - constructor.
+    + intros y. rewrite G1. auto.
+    + intros y. rewrite M1, G9. tauto.
+    + intros y Hy. destruct (ST' y) as [[Hi [S'|S']]|[Hi S']]; rewrite S'; auto.
+    + intros y Hy. destruct (ST' y) as [[Hi [S'|S']]|[Hi S']]; rewrite S'; auto. discriminate.
+    + intros z. unfold getdeps. rewrite G4. apply incl_refl.
+    + apply ext_same. exact G6.
+Qed.
+
+Lemma sweep_cancelled_x (A : nat -> Prop) l s :
+  (forall y, In y l -> ~ In y (completed s)) -> X c s -> R2 (fun y => In y l \/ A y) s ->
+  X c (mark_cancelled_list l s) /\ R2 A (mark_cancelled_list l s) /\ SR s (mark_cancelled_list l s).
+Proof.
+  intros Hout [XA XB] Rs.
+  destruct (mcl_view l s) as (M1 & M2 & M3 & M5).
+  destruct (mark_cancelled_list_frame l s) as (G1 & G2 & G3 & G4 & G5 & G6 & G7 & G8).
+  pose proof (mark_cancelled_list_failed l s) as G9.
+  set (s' := mark_cancelled_list l s) in *.
+  assert (ST' : forall y, (In y l /\ (stat s' y = CANCELLED \/ stat s' y = stat s y)) \/ (~ In y l /\ stat s' y = stat s y)).
+  { intros y. destruct (in_dec Nat.eq_dec y l) as [Hi|Hi]; [left|right]; split; auto. }
+  split; [|split].
+  - constructor; intros y; rewrite G1.
+    + destruct (ST' y) as [[Hi [S'|S']]|[Hi S']]; rewrite S'; auto. intros [?|?]; discriminate.
+    + intros Hy. destruct (ST' y) as [[Hi _]|[Hi S']]; [exfalso; exact (Hout y Hi Hy)|]. rewrite S'. auto.
+  - intros y. rewrite M1, G9. destruct (ST' y) as [[Hi _]|[Hi S']]; [auto|]. rewrite S'.
+    intros H. destruct (Rs y H) as [?|[?|[?|?]]]; auto. contradiction.
+  - constructor.
+    + intros y. rewrite G1. auto.
+    + intros y. rewrite M1, G9. tauto.
+    + intros y Hy. destruct (ST' y) as [[Hi [S'|S']]|[Hi S']]; rewrite S'; auto.
+    + intros y Hy. destruct (ST' y) as [[Hi [S'|S']]|[Hi S']]; rewrite S'; auto. discriminate.
+    + intros z. unfold getdeps. rewrite G4. apply incl_refl.
+    + apply ext_same. exact G6.
+Qed.
+
+Lemma fold_reports_x p L0 : dry c = false -> forall reps s cl ca,
+  disp_inv c g p L0 reps s cl ca -> X c s -> R2 (acc cl ca) s ->
+  let '(s', cl', ca') := fold_left (handle_report_gen c g) reps (s, cl, ca) in
+  X c s' /\ R2 (acc cl' ca') s' /\ SR s s'.
+Proof.
+  intros Hd. induction reps as [|r reps IH]; intros s cl ca D Xs Rs; cbn [fold_left].
+  - split; [exact Xs|split; [exact Rs|apply SR_refl]].
+  - pose proof (handle_report_spec c g p L0 W Hd r reps s cl ca D) as D1.
+    pose proof (handle_report_x p L0 r reps s cl ca Hd D Xs Rs) as H1.
+    destruct (handle_report_gen c g (s, cl, ca) r) as [[s1 cl1] ca1].
+    destruct H1 as (X1 & R1 & S1).
+    specialize (IH s1 cl1 ca1 D1 X1 R1).
+    destruct (fold_left (handle_report_gen c g) reps (s1, cl1, ca1)) as [[s2 cl2] ca2].
+    destruct IH as (X2 & R2' & S2). split; [exact X2|split; [exact R2'|eapply SR_trans; eauto]].
+Qed.
+
+Definition nobody (_ : nat) : Prop := False.
+
+Lemma dispatch_x p L0 reps s :
+  dry c = false -> Inv g s -> Thr c s -> clean c g p L0 s -> J false (tpend reps) (pfin reps) s (led c g p L0 s) ->
+  NoDup (map fst reps) -> (forall y, In y (map fst reps) -> In y (inprog s)) ->
+  X c s -> R2 nobody s ->
+  X c (dispatch_gen c g reps s) /\ R2 nobody (dispatch_gen c g reps s) /\ SR s (dispatch_gen c g reps s).
+Proof.
+  intros Hd I T Cl Jh ND RI Xs Rs. unfold dispatch_gen.
+  assert (D0 : disp_inv c g p L0 reps s [] []).
+  { repeat (split; [assumption|]). intros y [[]|[]]. }
+  assert (R0 : R2 (acc [] []) s).
+  { intros y Hy. destruct (Rs y Hy) as [?|[?|[]]]; auto. }
+  pose proof (fold_reports_spec c g p L0 W Hd reps s [] [] D0) as FS.
+  pose proof (fold_reports_x p L0 Hd reps s [] [] D0 Xs R0) as FX.
+  destruct (fold_left (handle_report_gen c g) reps (s, [], [])) as [[s1 cl] ca].
+  destruct FS as (I1 & _ & _ & _ & _ & _ & AC). destruct FX as (X1 & R1 & S1).
+  assert (O1 : forall y, In y cl -> ~ In y (completed s1)) by (intros y Hy; apply (AC y); auto).
+  destruct (sweep_failed_x (fun y => In y ca) cl s1 O1 X1 R1) as (X2 & R2' & S2).
+  pose proof (mark_failed_list_frame cl s1) as (F1 & _).
+  assert (O2 : forall y, In y ca -> ~ In y (completed (mark_failed_list cl s1))).
+  { intros y Hy. rewrite F1. apply (AC y); auto. }
+  assert (R2'' : R2 (fun y => In y ca \/ nobody y) (mark_failed_list cl s1)).
+  { intros y Hy. destruct (R2' y Hy) as [?|[?|?]]; auto. }
+  destruct (sweep_cancelled_x nobody ca _ O2 X2 R2'') as (X3 & R3 & S3).
+  split; [exact X3|split; [exact R3|]]. eapply SR_trans; [exact S1|]. eapply SR_trans; eauto.
+Qed.
 
 End Pass2.
